@@ -43,6 +43,9 @@ class Obj:
     def __bool__(self):
         return self._spec.get('truthy', True)
 
+    def __repr__(self):
+        return '<Obj %s>' % self._spec['str']
+
 
 class ObjItems(Obj):
     def __getitem__(self, key):
@@ -122,6 +125,8 @@ class TalGen:
         for n in self.rng.sample(self.pool, self.rng.randint(2, min(5, len(self.pool)))):
             self.vars[n] = self.value(2)
         self.vars['xs'] = {'list': [self.value(0) for _ in range(self.rng.choice([0, 1, 2, 3]))]}
+        self.vars['pair'] = {'tuple': [self.value(0), self.value(0)]}
+        self.vars['pairs'] = {'list': [{'tuple': [self.value(0), self.value(0)]} for _ in range(self.rng.choice([0, 1, 2]))]}
         self.vars['d'] = {'dict': [[{'str': k}, self.value(0)] for k in self.rng.sample(['class', 'id', 'title', 'a'], self.rng.choice([0, 1, 2]))]}
 
     # ---- expressions
@@ -200,7 +205,11 @@ class TalGen:
     # ---- markup
     def text(self, scope):
         r = self.rng.random()
-        if 'interp' in self.f and r < 0.5:
+        if 'interp' in self.f and r < 0.2:
+            # scope probe: is the name (still) bound here?
+            self.stat('scope_probe')
+            return "[${%s | 'U'}]" % self.rng.choice(self.pool)
+        if 'interp' in self.f and r < 0.6:
             self.stat('interp')
             return self.istring(scope)
         return self.rng.choice(['t', 'hello', ' ', '\n  ', 'a &amp; b', 'x', ''])
@@ -228,8 +237,14 @@ class TalGen:
             self.stat('define')
             parts = []
             for _ in range(rng.choice([1, 1, 2])):
-                nm = rng.choice(self.pool)
                 kind = rng.choice(['', '', 'local ', 'global '])
+                if rng.random() < 0.15:
+                    self.stat('tuple_define')
+                    n1, n2 = rng.sample(self.pool, 2)
+                    parts.append('%s(%s, %s) %s' % (kind, n1, n2, rng.choice(["(1, 'x')", "['p', 'q']", 'pair', "(1, 2, 3)"])))
+                    inner[n1] = inner[n2] = 1
+                    continue
+                nm = rng.choice(self.pool)
                 parts.append('%s%s %s' % (kind, nm, self.tales(inner).replace(';', ';;')))
                 inner[nm] = 1
             stmts.append(('tal:define', '; '.join(parts)))
@@ -240,10 +255,16 @@ class TalGen:
             stmts.append(('tal:condition', self.tales(inner)))
         if 'repeat' in chosen:
             self.stat('repeat')
-            nm = rng.choice(self.pool)
-            src = rng.choice(['xs', 'xs', '[1, 2]', "['a', 'b', 'c']", '[]', 'None', self.name(inner), "R('%s', xs)" % self.key()])
-            stmts.append(('tal:repeat', '%s %s' % (nm, src)))
-            inner[nm] = 1
+            if rng.random() < 0.12:
+                self.stat('tuple_repeat')
+                n1, n2 = rng.sample(self.pool, 2)
+                stmts.append(('tal:repeat', '(%s, %s) %s' % (n1, n2, rng.choice(["[(1, 2), (3, 4)]", "[('k', 'v')]", 'pairs', '[]']))))
+                inner[n1] = inner[n2] = 1
+            else:
+                nm = rng.choice(self.pool)
+                src = rng.choice(['xs', 'xs', '[1, 2]', "['a', 'b', 'c']", '[]', 'None', self.name(inner), "R('%s', xs)" % self.key()])
+                stmts.append(('tal:repeat', '%s%s %s' % (rng.choice(['', '', '', 'global ']), nm, src)))
+                inner[nm] = 1
         if is_switch:
             self.stat('switch')
             stmts.append(('tal:switch', rng.choice(['1', '2', "'a'", self.pexpr(inner, 1)])))
